@@ -7,10 +7,19 @@
     system calls with a crash between any two of them.  The four designs golib HAD (second granularity, no lock,
     empty value skipped, truncate-then-write) are each refuted by TLC: that is a sensitivity test of the model, the
     code no longer has them.
+    A fifth design (the stamp remembered by a reload comes from a second stat AFTER the parse) is refuted too: the
+    model does explore external edits between the steps of a reload.
 (A) Trace_FileConfig: recorded histories of the real FileConfig (verif constructor without the poll goroutine,
     ReloadNowForVerif): external edits over the properties syntax, reloads, 11 getter kinds, observers, write-backs;
-    getters on 8 reader goroutines of a child process racing the reloading goroutine.
-    Trace_FsWrite: the system calls of the real write-back recorded with strace, AtomicOnDisk after every call.
+    gen ilv: the real reload (and the constructor's) taken apart at the points where it calls out -- into the parser
+    after its stat, into the observers after the map assignment -- with external edits, getters and write-backs
+    imposed between stat and parse, between parse and map assignment and during the notification, then polls of the
+    file at rest; getters on 8 reader goroutines of a child process racing the reloading goroutine.
+    The configuration file is reached as a regular file, through symbolic links (absolute, relative, same directory,
+    a chain), through a symbolic link to the home directory and through a relative home path.
+    Trace_FsWrite: the system calls of the real write-back recorded with strace for each of 12 layouts (those, and the
+    home / configuration directory / file name taken from the environment, home "."), AtomicOnDisk -- on the entry
+    the configuration path leads to through the links as they are at that instant -- after every call.
 Open known findings (generators steer around them only while they are listed in known-findings.json; witnesses
 kf_wbsyntax, kf_wbescape): the write-back understands only `key=value` lines and writes no escapes."""
 import copy, json, os, re
@@ -21,6 +30,8 @@ ASIS = [  # (cfg, invariant TLC must refute, what golib did)
     ("MC_FileConfig_asis_nolock.cfg", "NoFatal", "map shared without a lock"),
     ("MC_FileConfig_asis_empty.cfg", "EventuallyVisible", "`k=` in the file keeps the stale value"),
     ("MC_FileConfig_asis_trunc.cfg", "AtomicOnDisk", "open O_TRUNC, write, fsync, close"),
+    # not a former design: the variant a reload that 'remembers the version after it was loaded' would be
+    ("MC_FileConfig_alt_restat.cfg", "EventuallyVisible", "stamp remembered from a second stat taken after the parse"),
 ]
 
 
@@ -42,7 +53,25 @@ def _flip(seq):
     return (seq[:-1] + [(seq[-1] + 1) % 256]) if seq else [120]
 
 
-def binding_selftest(run, out, meta, gen, target, corrupt, remove_ev):
+def _edit_inside_reload(evs):
+    """an external edit that fell between the parse and the map assignment of a taken-apart reload and is the
+    only reason why the NEXT poll goes on to parse: without it that poll cannot be explained"""
+    for i in range(1, len(evs) - 1):
+        if evs[i]["ev"] == "Edit" and evs[i - 1]["ev"] == "RlParse" and evs[i + 1]["ev"] == "RlApplied":
+            k = i - 2
+            while evs[k]["ev"] == "Get":
+                k -= 1
+            if evs[k]["ev"] != "RlStat":            # the file changed after the stat as well
+                continue
+            for j in range(i + 2, len(evs)):
+                if evs[j]["ev"] in ("Edit", "SetValues", "Reload", "Panic"):
+                    break
+                if evs[j]["ev"] == "RlStat":
+                    return i
+    return None
+
+
+def binding_selftest(run, out, meta, gen, target, corrupt, remove_ev, pick_remove=None):
     """Binding demonstration with a corruption that is decisive for this trace format (nested byte
     tuples): in the first history of `gen` that has an event `target`, (a) corrupt() changes one
     recorded observation of that event, (b) the first event `remove_ev` that is directly followed by a poll is removed; TLC must reject both."""
@@ -54,7 +83,10 @@ def binding_selftest(run, out, meta, gen, target, corrupt, remove_ev):
             continue
         ti = next((i for i, e in enumerate(evs) if e["ev"] == target and corrupt(copy.deepcopy(e)) is not None), None)
         # an event whose effect the very next poll must show to at least one observer
-        ri = next((i for i, e in enumerate(evs[:-1]) if e["ev"] == remove_ev and evs[i + 1]["ev"] == "Reload" and evs[0].get("nobs", 0) > 0), None)
+        if pick_remove:
+            ri = pick_remove(evs)
+        else:
+            ri = next((i for i, e in enumerate(evs[:-1]) if e["ev"] == remove_ev and evs[i + 1]["ev"] == "Reload" and evs[0].get("nobs", 0) > 0), None)
         if ti is None or ri is None:
             continue
         res = {}
@@ -83,6 +115,13 @@ def _corrupt_snap(e):
     return e
 
 
+def _corrupt_parsed(e):
+    if not e.get("m"):
+        return None
+    e["m"][0][1] = _flip(e["m"][0][1])            # the value the parser returned for the first key
+    return e
+
+
 def _corrupt_after(e):
     for ln in e.get("after", []):
         if ln["t"] == "kv" and ln["v"]:
@@ -102,11 +141,19 @@ def body(run):
     ex = meta.get("extra") or {}
     if not ex.get("write_back_syscalls_judged"):
         raise vf.MachineryError("no system call of the write-back was recorded: AtomicOnDisk would be vacuous")
+    lay = ex.get("write_back_layouts_judged") or {}
+    if len(lay) < 12:
+        raise vf.MachineryError("the write-back was recorded for %d of 12 layouts only: %s" % (len(lay), sorted(lay)))
     run.validate(out, meta, max_findings=12)
     binding_selftest(run, out, meta, "edit", "Reload", _corrupt_snap, "Edit")
     binding_selftest(run, out, meta, "wb", "SetValues", _corrupt_after, "SetValues")
+    binding_selftest(run, out, meta, "ilv", "RlParse", _corrupt_parsed, "Edit", pick_remove=_edit_inside_reload)
     run.selftest(out, meta, gen="sys", spec="Trace_FsWrite", field="data")
     run.assumptions += [
+        "a reload is taken apart only where it calls out (parser, observers): an edit is imposed after the stat and before the file is read, after the file was read and before anything reload does next, and after the map assignment; an edit BETWEEN two reads of the parser (a file changing while it is being read) is not imposed -- the external writer of the histories replaces the file as a whole",
+        "a parser that fails (FileConfig accepts a foreign one) is not explored: the library's own parser terminates the process on a file it rejects",
+        "external edits do not interleave with the steps of a write-back (read, merge, write): a lost update between two writers without a lock is outside the property",
+        "the layouts: configuration path = regular file | symbolic link (absolute, relative, same directory, chain of two); home = absolute | relative | '.' | symbolic link to a directory | WHATAP_HOME; WHATAP_CONFIG_HOME / WHATAP_CONFIG; AtomicOnDisk is judged on what the configuration path leads to (a write-back that replaced the link itself by the new file would satisfy it); hard links, bind mounts and dangling links are not laid out",
         "the 3 s poll timer is replaced by ReloadNowForVerif (one poll on demand); the constructor runs without the poll goroutine; file modification times are real but set explicitly (os.Chtimes) so that several edits fall into one second",
         "two successive versions of the file differ in modification time or size (an edit that keeps both is invisible to any stat-based poller and is not generated)",
         "the file is read back into logical lines (comment | blank | key=value after unescaping) by the harness's own reader of the properties syntax; every Edit event carries the writer's and the reader's view and TLC requires them to agree",
